@@ -92,8 +92,11 @@ func (w *c06World) fork() *c06World {
 
 var c06Kinds = []string{"secret", "secret-in-namespace", "secret-wrapped", "secret-uselimited", "login", "login-wrapped", "create", "create-role", "create-orphan", "create-wrapped"}
 
-func (w *c06World) request(kind string) rr {
-	tc := w.tc
+func (w *c06World) request(kind string) rr { return w.requestCtx(kind, w.tc.ctx) }
+
+// requestCtx issues the request under the given parent context (a cancellable one models a client that goes away).
+func (w *c06World) requestCtx(kind string, base context.Context) rr {
+	tc := &ctxCore{tcore: w.tc, base: base}
 	wrap := func(req *logical.Request) *logical.Request {
 		req.WrapInfo = &logical.RequestWrapInfo{TTL: 5 * time.Minute}
 		return req
@@ -102,7 +105,7 @@ func (w *c06World) request(kind string) rr {
 	case "secret":
 		return tc.do(&logical.Request{Operation: logical.ReadOperation, Path: "rb/creds/a", ClientToken: w.parent})
 	case "secret-in-namespace":
-		return tc.doCtx(namespace.ContextWithNamespace(context.Background(), w.ns1), &logical.Request{Operation: logical.ReadOperation, Path: "rb/creds/a", ClientToken: w.nsTok})
+		return tc.doCtx(namespace.ContextWithNamespace(base, w.ns1), &logical.Request{Operation: logical.ReadOperation, Path: "rb/creds/a", ClientToken: w.nsTok})
 	case "secret-wrapped":
 		return tc.do(wrap(&logical.Request{Operation: logical.ReadOperation, Path: "rb/creds/a", ClientToken: w.parent}))
 	case "secret-uselimited":
@@ -122,6 +125,14 @@ func (w *c06World) request(kind string) rr {
 	}
 	panic(kind)
 }
+
+// ctxCore issues requests under a given parent context instead of the core's background context.
+type ctxCore struct {
+	*tcore
+	base context.Context
+}
+
+func (c *ctxCore) do(req *logical.Request) rr { return c.tcore.doCtx(c.base, req) }
 
 // keysUnder lists all physical keys below prefix directly from the store.
 func sortedKeys(m map[string]bool) []string {
@@ -256,7 +267,7 @@ func (w *c06World) invariant(tokensBefore map[string]bool) (string, string) {
 }
 
 func TestVerif_C06_LeaseFaults(t *testing.T) {
-	rec := verifx.NewRecorder("C06", "lease-faults", "request shapes {leased secret (plain / response-wrapped / with a use-limited token), login through a recording credential backend (plain / wrapped), auth/token/create (plain / role / create-orphan / wrapped)}; dry run counts the storage operations n of the request; for every k<=n (quick: up to 16 evenly spread) the k-th storage operation of the request goroutine fails once on a fresh copy; oracle: a handed-out secret has lease + token index, a handed-out token is usable and leased; after an error no usable token lacks a lease, no partial lease/index records, every generated secret is revoked at the backend or covered by a lease; also crash after every prefix of the request's writes followed by restart; non-trivial = the fault (or crash) fell after the first write of the request or after the backend had produced the secret/auth")
+	rec := verifx.NewRecorder("C06", "lease-faults", "request shapes {leased secret (plain / response-wrapped / with a use-limited token), login through a recording credential backend (plain / wrapped), auth/token/create (plain / role / create-orphan / wrapped)}; dry run counts the storage operations n of the request; for every k<=n (quick: up to 16 evenly spread) the k-th storage operation of the request goroutine fails once on a fresh copy; oracle: a handed-out secret has lease + token index, a handed-out token is usable and leased; after an error no usable token lacks a lease, no partial lease/index records, every generated secret is revoked at the backend or covered by a lease; also crash after every prefix of the request's writes followed by restart; for the secret-generating shapes also 'the client goes away': the request context is cancelled when the k-th storage operation starts (that and all later operations under the request context fail, and the recording backend refuses a revocation that arrives with a cancelled context) - there only 'every generated secret is revoked at the backend or covered by a lease record' and 'no usable token without lease' are asserted; non-trivial = the fault (or crash) fell after the first write of the request or after the backend had produced the secret/auth")
 	defer rec.Flush()
 	rapid.Check(t, func(rt *rapid.T) {
 		txn := rapid.Bool().Draw(rt, "transactionalStorage")
@@ -364,6 +375,76 @@ func c06RunKind(t *testing.T, rt *rapid.T, rec *verifx.Recorder, txn bool, kind 
 					rec.Violation(rt, sig+":after-fault", detail, "%s (request %s returned %v, fault at storage operation %d/%d = %s)", msg, kind, res, k, nOps, what)
 				}
 			}()
+		}
+		// the client goes away: the request context is cancelled when the k-th storage operation starts (that operation
+		// and everything else that honours the context then fails, including a backend revocation that is handed the
+		// request context); only for the shapes that generate a secret at a backend
+		if strings.HasPrefix(kind, "secret") {
+			for _, k := range pickKsPhase(nOps, verifx.Scale(8, 1<<30), phase+3) {
+				w := base.fork()
+				func() {
+					defer func() { w.tc.shutdown() }()
+					cctx, cancel := context.WithCancel(w.tc.ctx)
+					defer cancel()
+					n := 0
+					var hit *verifx.Op
+					w.tc.rec.SetFault(func(o *verifx.Op) error {
+						if o.G != g {
+							return nil
+						}
+						n++
+						if n == k {
+							hit = o
+							cancel()
+						}
+						if n >= k && cctx.Err() != nil {
+							return context.Canceled
+						}
+						return nil
+					})
+					w.hub.mu.Lock()
+					w.hub.honourCtx = true
+					w.hub.mu.Unlock()
+					callsBefore := len(w.hub.handlerCalls())
+					res := w.requestCtx(kind, cctx)
+					w.tc.rec.SetFault(nil)
+					w.hub.mu.Lock()
+					w.hub.honourCtx = false
+					w.hub.mu.Unlock()
+					what, afterBackend := "none", false
+					if hit != nil {
+						what = hit.Kind + " " + keyClass(hit.Key)
+						for _, c := range w.hub.handlerCalls()[callsBefore:] {
+							if !c.Revoke && c.Enter <= hit.Seq {
+								afterBackend = true
+							}
+						}
+					}
+					detail := map[string]any{"request": kind, "context_cancelled_at_op": k, "of_ops": nOps, "op": what, "result": res.String(), "transactional": txn}
+					rec.Case(kind+":cancel", afterBackend, verifx.Digest(kind, txn, "cancel", k, what), func() any { return detail })
+					if res.ok() {
+						if sig, msg := c06Outcome(w, kind, res); sig != "" {
+							rec.Violation(rt, sig+":after-cancel", detail, "%s (request %s, context cancelled at storage operation %d/%d = %s)", msg, kind, k, nOps, what)
+							return
+						}
+					}
+					var sig, msg string
+					for i := 0; i < 200; i++ {
+						sig, msg = w.invariant(tokensBefore)
+						if sig != "secret-without-lease-not-revoked" {
+							break
+						}
+						time.Sleep(5 * time.Millisecond)
+					}
+					// With the request context gone every later storage operation under that context fails too, so the
+					// removal of a half-written lease record cannot be demanded here (that is more than one failing
+					// operation); what must still hold is that nothing generated stays alive untracked and no usable
+					// token lacks a lease.
+					if sig == "secret-without-lease-not-revoked" || sig == "usable-token-without-lease" || sig == "revocation-routed-to-wrong-backend" {
+						rec.Violation(rt, sig+":after-cancel", detail, "%s (request %s returned %v, request context cancelled at storage operation %d/%d = %s)", msg, kind, res, k, nOps, what)
+					}
+				}()
+			}
 		}
 		// crash prefixes of the fault-free request
 		for _, k := range pickKs(nMut-1, verifx.Scale(6, 1<<30)) {
